@@ -1,5 +1,6 @@
 import Seccomp.Model.Spec
 import Seccomp.Model.Oracle
+import Seccomp.Model.Chain
 import Seccomp.Gen.Tables
 import Seccomp.Model.Arch
 import Seccomp.Driver.Disasm
@@ -322,6 +323,11 @@ def handle (A : Arches) (line : String) : String :=
       | .stuck => pure "STUCK"
     (match p.run rest with
      | some (r, []) => r
+     | _ => "BAD-REQUEST")
+  | "CH" :: rest =>
+    -- the kernel's loop over the return values of a chain of filters, newest first (CH n v1 … vn)
+    (match (counted nat).run rest with
+     | some (vs, []) => s!"CHAIN {(Chain.chain (vs.map (BitVec.ofNat 32))).toNat}"
      | _ => "BAD-REQUEST")
   | "H" :: rest => Driver.Loader.handle rest
   | "R" :: rest =>
